@@ -1,5 +1,547 @@
 package main
 
+import (
+	"fmt"
+	"go/ast"
+	"go/token"
+	"go/types"
+	"sort"
+	"strings"
+)
+
+// cfg.go — renders every non-test function of package fsnotify (Linux build) as a skeleton of the language of
+// coq/theories/CfgLang.v: lock and channel operations, table / ring accesses, system calls, go statements, calls
+// between these functions and the control structure around them.  What is not understood becomes SUnrecognised.
+
+type cfgCtx struct {
+	v      *pkgView
+	fn     string            // name of the function being translated
+	locals map[string]string // local variable bound to a function literal -> synthesized skeleton name
+	extra  map[string]string // synthesized skeletons (function literals bound to locals)
+	out    map[string]string
+	inLit  bool // translating the body of a function literal that runs inside the caller: `return` ends the literal only
+}
+
+func coqS(s string) string { return coqSrc(s) }
+
+func chanOf(name string) string {
+	switch {
+	case strings.HasSuffix(name, ".Events") || name == "Events" || name == "ev":
+		return "ChEvents"
+	case strings.HasSuffix(name, ".Errors") || name == "Errors" || name == "errs":
+		return "ChErrors"
+	case strings.HasSuffix(name, ".doneResp"):
+		return "ChDoneResp"
+	case strings.HasSuffix(name, ".done"):
+		return "ChDone"
+	}
+	return "(ChOther " + coqS(name) + ")"
+}
+
+func mutexOf(name string) string {
+	switch {
+	case strings.HasSuffix(name, ".cookiesMu"):
+		return "MuCookies"
+	case strings.HasSuffix(name, ".mu"):
+		return "MuMain"
+	}
+	return "(MuOther " + coqS(name) + ")"
+}
+
+func seq(items []string) string {
+	if len(items) == 1 {
+		return items[0]
+	}
+	return "(SSeq [" + strings.Join(items, "; ") + "])"
+}
+
+func act(a string) string { return "(SAct " + a + ")" }
+
+// funcName: "Recv.Name" for methods, "Name" for functions
+func funcObjName(f *types.Func) string {
+	sig := f.Type().(*types.Signature)
+	if r := sig.Recv(); r != nil {
+		t := r.Type()
+		if p, ok := t.(*types.Pointer); ok {
+			t = p.Elem()
+		}
+		if n, ok := t.(*types.Named); ok {
+			if _, isIface := n.Underlying().(*types.Interface); isIface && n.Obj().Name() == "backend" {
+				return "inotify." + f.Name() // the Linux backend
+			}
+			return n.Obj().Name() + "." + f.Name()
+		}
+	}
+	return f.Name()
+}
+
+func (c *cfgCtx) isTableSel(e ast.Expr) bool {
+	sel, ok := e.(*ast.SelectorExpr)
+	if !ok || (sel.Sel.Name != "wd" && sel.Sel.Name != "path") {
+		return false
+	}
+	t := c.v.pkg.TypesInfo.TypeOf(sel.X)
+	if t == nil {
+		return false
+	}
+	if p, ok := t.(*types.Pointer); ok {
+		t = p.Elem()
+	}
+	n, ok := t.(*types.Named)
+	return ok && n.Obj().Name() == "watches"
+}
+
+func (c *cfgCtx) isRingSel(e ast.Expr) bool {
+	sel, ok := e.(*ast.SelectorExpr)
+	return ok && (sel.Sel.Name == "cookies" || sel.Sel.Name == "cookieIndex")
+}
+
+// expr: the effects of evaluating e, in evaluation order (arguments before the call)
+func (c *cfgCtx) expr(e ast.Expr, write bool) []string {
+	var out []string
+	if e == nil {
+		return nil
+	}
+	switch x := e.(type) {
+	case *ast.ParenExpr:
+		return c.expr(x.X, write)
+	case *ast.UnaryExpr:
+		out = append(out, c.expr(x.X, false)...)
+		if x.Op == token.ARROW {
+			out = append(out, act("(ARecv "+chanOf(c.v.src(x.X))+")"))
+		}
+	case *ast.BinaryExpr:
+		out = append(out, c.expr(x.X, false)...)
+		out = append(out, c.expr(x.Y, false)...)
+	case *ast.StarExpr:
+		return c.expr(x.X, write)
+	case *ast.IndexExpr:
+		out = append(out, c.expr(x.Index, false)...)
+		out = append(out, c.expr(x.X, write)...)
+	case *ast.SliceExpr:
+		out = append(out, c.expr(x.X, false)...)
+		out = append(out, c.expr(x.Low, false)...)
+		out = append(out, c.expr(x.High, false)...)
+		out = append(out, c.expr(x.Max, false)...)
+	case *ast.TypeAssertExpr:
+		return c.expr(x.X, false)
+	case *ast.KeyValueExpr:
+		out = append(out, c.expr(x.Value, false)...)
+	case *ast.CompositeLit:
+		for _, el := range x.Elts {
+			out = append(out, c.expr(el, false)...)
+		}
+	case *ast.SelectorExpr:
+		if c.isTableSel(x) {
+			out = append(out, act(fmt.Sprintf("(ATable %v)", write)))
+		} else if c.isRingSel(x) {
+			out = append(out, act("ARing"))
+		} else {
+			out = append(out, c.expr(x.X, false)...)
+		}
+	case *ast.FuncLit:
+		// a function literal that is only created here; where it runs is decided by the caller of expr
+	case *ast.CallExpr:
+		out = append(out, c.call(x)...)
+	}
+	return out
+}
+
+func (c *cfgCtx) call(x *ast.CallExpr) []string {
+	var out []string
+	info := c.v.pkg.TypesInfo
+	fun := c.v.src(x.Fun)
+	// builtins
+	if id, ok := x.Fun.(*ast.Ident); ok {
+		switch id.Name {
+		case "close":
+			if len(x.Args) == 1 {
+				return []string{act("(AClose " + chanOf(c.v.src(x.Args[0])) + ")")}
+			}
+		case "delete":
+			if len(x.Args) == 2 {
+				out = append(out, c.expr(x.Args[1], false)...)
+				out = append(out, c.expr(x.Args[0], true)...)
+				return out
+			}
+		case "make", "len", "cap", "append", "new", "panic", "copy", "uint32", "uint8", "int", "string", "uintptr", "byte", "Op":
+			for _, a := range x.Args {
+				out = append(out, c.expr(a, false)...)
+			}
+			return out
+		}
+		if name, ok := c.locals[id.Name]; ok { // call of a function literal bound to a local
+			for _, a := range x.Args {
+				out = append(out, c.expr(a, false)...)
+			}
+			return append(out, "(SCall "+coqS(name)+")")
+		}
+	}
+	// arguments first; function literals passed as arguments run zero or more times during the call
+	var lits []*ast.FuncLit
+	for _, a := range x.Args {
+		if fl, ok := a.(*ast.FuncLit); ok {
+			lits = append(lits, fl)
+			continue
+		}
+		out = append(out, c.expr(a, false)...)
+	}
+	if sel, ok := x.Fun.(*ast.SelectorExpr); ok {
+		out = append(out, c.expr(sel.X, false)...)
+		switch {
+		case sel.Sel.Name == "Lock" || sel.Sel.Name == "RLock":
+			return append(out, act("(ALock "+mutexOf(c.v.src(sel.X))+")"))
+		case sel.Sel.Name == "Unlock" || sel.Sel.Name == "RUnlock":
+			return append(out, act("(AUnlock "+mutexOf(c.v.src(sel.X))+")"))
+		case strings.HasSuffix(fun, ".inotifyFile.Read"):
+			return append(out, act("AFileRead"))
+		case strings.HasSuffix(fun, ".inotifyFile.Close"):
+			return append(out, act("AFileClose"))
+		}
+		if id, ok := sel.X.(*ast.Ident); ok {
+			if pn, ok := info.Uses[id].(*types.PkgName); ok {
+				switch pn.Imported().Path() {
+				case "golang.org/x/sys/unix":
+					out = append(out, act("(ASyscall "+coqS(sel.Sel.Name)+")"))
+				}
+				for _, fl := range lits {
+					out = append(out, "(SLoop "+seq(c.litBody(fl))+")")
+				}
+				return out
+			}
+		}
+		if s, ok := info.Selections[sel]; ok {
+			if f, ok := s.Obj().(*types.Func); ok && f.Pkg() != nil && f.Pkg() == c.v.pkg.Types {
+				out = append(out, "(SCall "+coqS(funcObjName(f))+")")
+				for _, fl := range lits {
+					out = append(out, "(SLoop "+seq(c.litBody(fl))+")")
+				}
+				return out
+			}
+		}
+	}
+	if id, ok := x.Fun.(*ast.Ident); ok {
+		if f, ok := info.Uses[id].(*types.Func); ok && f.Pkg() == c.v.pkg.Types {
+			out = append(out, "(SCall "+coqS(funcObjName(f))+")")
+		} else if _, ok := info.Uses[id].(*types.Var); ok {
+			out = append(out, act("(AOther "+coqS("call of function value "+id.Name)+")"))
+		}
+	}
+	if fl, ok := x.Fun.(*ast.FuncLit); ok { // immediately invoked literal
+		out = append(out, c.block(fl.Body.List)...)
+	}
+	for _, fl := range lits {
+		out = append(out, "(SLoop "+seq(c.litBody(fl))+")")
+	}
+	return out
+}
+
+func (c *cfgCtx) litBody(fl *ast.FuncLit) []string {
+	sub := &cfgCtx{v: c.v, fn: c.fn, locals: c.locals, extra: c.extra, inLit: true}
+	return sub.block(fl.Body.List)
+}
+
+func (c *cfgCtx) block(stmts []ast.Stmt) []string {
+	var out []string
+	for _, s := range stmts {
+		out = append(out, c.stmt(s)...)
+	}
+	if len(out) == 0 {
+		return []string{"(SSeq [])"}
+	}
+	return out
+}
+
+func (c *cfgCtx) stmt(s ast.Stmt) []string {
+	switch x := s.(type) {
+	case nil:
+		return nil
+	case *ast.ExprStmt:
+		return c.expr(x.X, false)
+	case *ast.SendStmt:
+		out := c.expr(x.Value, false)
+		return append(out, act("(ASend "+chanOf(c.v.src(x.Chan))+")"))
+	case *ast.IncDecStmt:
+		return c.expr(x.X, true)
+	case *ast.AssignStmt:
+		var out []string
+		// a function literal bound to a local variable gets a skeleton of its own
+		if len(x.Lhs) == 1 && len(x.Rhs) == 1 {
+			if fl, ok := x.Rhs[0].(*ast.FuncLit); ok {
+				if id, ok := x.Lhs[0].(*ast.Ident); ok {
+					name := c.fn + "$" + id.Name
+					c.locals[id.Name] = name
+					sub := &cfgCtx{v: c.v, fn: name, locals: c.locals, extra: c.extra}
+					c.extra[name] = seq(sub.block(fl.Body.List))
+					return nil
+				}
+			}
+		}
+		for _, r := range x.Rhs {
+			out = append(out, c.expr(r, false)...)
+		}
+		for _, l := range x.Lhs {
+			out = append(out, c.expr(l, true)...)
+		}
+		return out
+	case *ast.DeclStmt:
+		var out []string
+		if gd, ok := x.Decl.(*ast.GenDecl); ok {
+			for _, sp := range gd.Specs {
+				if vs, ok := sp.(*ast.ValueSpec); ok {
+					for _, val := range vs.Values {
+						out = append(out, c.expr(val, false)...)
+					}
+				}
+			}
+		}
+		return out
+	case *ast.DeferStmt:
+		if fl, ok := x.Call.Fun.(*ast.FuncLit); ok {
+			return []string{"(SDefer [" + strings.Join(c.block(fl.Body.List), "; ") + "])"}
+		}
+		return []string{"(SDefer [" + strings.Join(c.call(x.Call), "; ") + "])"}
+	case *ast.GoStmt:
+		info := c.v.pkg.TypesInfo
+		if sel, ok := x.Call.Fun.(*ast.SelectorExpr); ok {
+			if s, ok := info.Selections[sel]; ok {
+				if f, ok := s.Obj().(*types.Func); ok {
+					return []string{act("(AGo " + coqS(funcObjName(f)) + ")")}
+				}
+			}
+		}
+		return []string{act("(AGo " + coqS(c.v.src(x.Call.Fun)) + ")")}
+	case *ast.ReturnStmt:
+		var out []string
+		for _, r := range x.Results {
+			out = append(out, c.expr(r, false)...)
+		}
+		if c.inLit {
+			return append(out, "SBreak")
+		}
+		return append(out, "SReturn")
+	case *ast.BranchStmt:
+		if x.Label == nil && (x.Tok == token.BREAK || x.Tok == token.CONTINUE) {
+			return []string{"SBreak"}
+		}
+		return []string{"(SUnrecognised " + coqS(c.v.src(s)) + ")"}
+	case *ast.BlockStmt:
+		return c.block(x.List)
+	case *ast.IfStmt:
+		out := c.stmt(x.Init)
+		if f := c.deadConjunct(x.Cond); f != "" {
+			// the condition contains a boolean field that no live code ever sets: the branch cannot run
+			elseB := "(SSeq [])"
+			if x.Else != nil {
+				elseB = seq(c.stmt(x.Else))
+			}
+			return append(out, act("(AOther "+coqS("dead branch: field "+f+" is never set by non-test code")+")"), elseB)
+		}
+		out = append(out, c.expr(x.Cond, false)...)
+		thenB := seq(c.block(x.Body.List))
+		elseB := "(SSeq [])"
+		if x.Else != nil {
+			elseB = seq(c.stmt(x.Else))
+		}
+		return append(out, "(SIf ["+thenB+"; "+elseB+"])")
+	case *ast.ForStmt:
+		out := c.stmt(x.Init)
+		body := c.expr(x.Cond, false)
+		body = append(body, c.block(x.Body.List)...)
+		body = append(body, c.stmt(x.Post)...)
+		return append(out, "(SLoop "+seq(body)+")")
+	case *ast.RangeStmt:
+		out := c.expr(x.X, false)
+		return append(out, "(SLoop "+seq(c.block(x.Body.List))+")")
+	case *ast.SwitchStmt:
+		out := c.stmt(x.Init)
+		out = append(out, c.expr(x.Tag, false)...)
+		var branches []string
+		hasDefault := false
+		for _, cl := range x.Body.List {
+			cc := cl.(*ast.CaseClause)
+			if cc.List == nil {
+				hasDefault = true
+			}
+			var b []string
+			for _, e := range cc.List {
+				b = append(b, c.expr(e, false)...)
+			}
+			b = append(b, c.block(cc.Body)...)
+			branches = append(branches, seq(b))
+		}
+		if !hasDefault {
+			branches = append(branches, "(SSeq [])")
+		}
+		return append(out, "(SIf ["+strings.Join(branches, "; ")+"])")
+	case *ast.SelectStmt:
+		var cases []string
+		var branches []string
+		hasDefault := false
+		var polls []string
+		for _, cl := range x.Body.List {
+			cc := cl.(*ast.CommClause)
+			if cc.Comm == nil {
+				hasDefault = true
+				branches = append(branches, seq(c.block(cc.Body)))
+				continue
+			}
+			isSend, ch := false, ""
+			switch cm := cc.Comm.(type) {
+			case *ast.SendStmt:
+				isSend, ch = true, chanOf(c.v.src(cm.Chan))
+			case *ast.ExprStmt:
+				if u, ok := unparen(cm.X).(*ast.UnaryExpr); ok && u.Op == token.ARROW {
+					ch = chanOf(c.v.src(u.X))
+				}
+			case *ast.AssignStmt:
+				if len(cm.Rhs) == 1 {
+					if u, ok := unparen(cm.Rhs[0]).(*ast.UnaryExpr); ok && u.Op == token.ARROW {
+						ch = chanOf(c.v.src(u.X))
+					}
+				}
+			}
+			if ch == "" {
+				return []string{"(SUnrecognised " + coqS(c.v.src(s)) + ")"}
+			}
+			cases = append(cases, fmt.Sprintf("(%v, %s)", isSend, ch))
+			polls = append(polls, act("(APoll "+ch+")"))
+			branches = append(branches, seq(c.block(cc.Body)))
+		}
+		if hasDefault {
+			return append(polls, "(SIf ["+strings.Join(branches, "; ")+"])")
+		}
+		return []string{act("(ASelect [" + strings.Join(cases, "; ") + "])"), "(SIf [" + strings.Join(branches, "; ") + "])"}
+	case *ast.LabeledStmt, *ast.TypeSwitchStmt:
+		return []string{"(SUnrecognised " + coqS(c.v.src(s)) + ")"}
+	case *ast.EmptyStmt:
+		return nil
+	}
+	return []string{"(SUnrecognised " + coqS(c.v.src(s)) + ")"}
+}
+
+// deadConjunct: if cond is (a conjunction containing) a boolean struct field that is never set to anything but its
+// zero value by live non-test code, return the field's name.
+func (c *cfgCtx) deadConjunct(cond ast.Expr) string {
+	cond = unparen(cond)
+	if b, ok := cond.(*ast.BinaryExpr); ok && b.Op == token.LAND {
+		if f := c.deadConjunct(b.X); f != "" {
+			return f
+		}
+		return c.deadConjunct(b.Y)
+	}
+	sel, ok := cond.(*ast.SelectorExpr)
+	if !ok {
+		return ""
+	}
+	s, ok := c.v.pkg.TypesInfo.Selections[sel]
+	if !ok {
+		return ""
+	}
+	fv, ok := s.Obj().(*types.Var)
+	if !ok || !fv.IsField() {
+		return ""
+	}
+	if b, ok := fv.Type().Underlying().(*types.Basic); !ok || b.Kind() != types.Bool {
+		return ""
+	}
+	if c.v.fieldNeverSet(fv) {
+		return fv.Name()
+	}
+	return ""
+}
+
+// fieldNeverSet: every assignment to the field (and every composite literal naming it) sits inside a top-level function
+// that nothing refers to.
+func (v *pkgView) fieldNeverSet(fv *types.Var) bool {
+	info := v.pkg.TypesInfo
+	refs := map[types.Object]int{}
+	for id, obj := range info.Uses {
+		_ = id
+		if f, ok := obj.(*types.Func); ok {
+			refs[f]++
+		}
+	}
+	ok := true
+	for _, file := range v.pkg.Syntax {
+		for _, d := range file.Decls {
+			fd, isF := d.(*ast.FuncDecl)
+			var encl types.Object
+			if isF {
+				encl = info.Defs[fd.Name]
+			}
+			ast.Inspect(d, func(n ast.Node) bool {
+				switch a := n.(type) {
+				case *ast.AssignStmt:
+					for _, l := range a.Lhs {
+						if sel, isSel := l.(*ast.SelectorExpr); isSel {
+							if s, has := info.Selections[sel]; has && s.Obj() == fv {
+								if encl == nil || refs[encl] > 0 {
+									ok = false
+								}
+							}
+						}
+					}
+				case *ast.KeyValueExpr:
+					if id, isId := a.Key.(*ast.Ident); isId && info.Uses[id] == fv {
+						if encl == nil || refs[encl] > 0 {
+							ok = false
+						}
+					}
+				case *ast.UnaryExpr:
+					if a.Op == token.AND {
+						if sel, isSel := a.X.(*ast.SelectorExpr); isSel {
+							if s, has := info.Selections[sel]; has && s.Obj() == fv {
+								ok = false
+							}
+						}
+					}
+				}
+				return true
+			})
+		}
+	}
+	return ok
+}
+
 func emitCfg(e *emitter, lin *pkgView) {
-	e.f("(* GENERATED — control-flow skeletons: not yet emitted *)\n")
+	e.f("(* GENERATED by /verif/xlate (cfg.go) from the current working tree of /repo — do not edit. *)\n")
+	e.f("From Coq Require Import List String.\nFrom Fsn Require Import CfgLang.\nImport ListNotations.\nLocal Open Scope string_scope.\n\n")
+	skel := map[string]string{}
+	for _, f := range lin.pkg.Syntax {
+		fname := lin.pkg.Fset.Position(f.Pos()).Filename
+		if strings.HasSuffix(fname, "_test.go") {
+			continue
+		}
+		for _, d := range f.Decls {
+			fd, ok := d.(*ast.FuncDecl)
+			if !ok || fd.Body == nil {
+				continue
+			}
+			obj, ok := lin.pkg.TypesInfo.Defs[fd.Name].(*types.Func)
+			if !ok {
+				continue
+			}
+			name := funcObjName(obj)
+			c := &cfgCtx{v: lin, fn: name, locals: map[string]string{}, extra: map[string]string{}}
+			skel[name] = seq(c.block(fd.Body.List))
+			for k, v := range c.extra {
+				skel[k] = v
+			}
+		}
+	}
+	var names []string
+	for k := range skel {
+		names = append(names, k)
+	}
+	sort.Strings(names)
+	e.f("Definition gen_program : program := [\n")
+	for i, n := range names {
+		sep := ";"
+		if i == len(names)-1 {
+			sep = ""
+		}
+		e.f("  (%s, %s)%s\n", strings.TrimSuffix(coqS(n), "%string"), skel[n], sep)
+	}
+	e.f("].\n")
 }
